@@ -259,6 +259,9 @@ preserving('s8-isnot-none-else-arm', ['C10'], [(M + 'random/_public.py', "    if
 preserving('n2-frobenius-of-square-sample', ['C10'], [(M + 'random/_internal.py', "    tmp0 = np_rng.normal(size=(N0,dim))\n    tmp0 = tmp0 / np.linalg.norm(tmp0, axis=-1, keepdims=True)", "    scale = np.linalg.norm(np_rng.normal(size=(dim,dim))*0 + np.eye(dim)) / np.sqrt(dim)\n    tmp0 = np_rng.normal(size=(N0,dim)) * scale\n    tmp0 = tmp0 / np.linalg.norm(tmp0, axis=-1, keepdims=True)")])
 breaking('EX1-admitted-option-without-arm', {'C20': 'EX1'}, edit=[(M + 'matrix_space/_numerical_range.py', "    assert method in {'rotation', 'eigen'}\n    dimA = mat.shape[0]", "    assert method in {'rotation', 'eigen', 'sdp'}\n    dimA = mat.shape[0]")])
 breaking('EX1-bell-stale-arm', {'C18': 'EX1'}, edit=[(M + 'state/_internal.py', "    elif i==2:\n        ret = np.array([0,1,1,0], dtype=np.float64) / np.sqrt(2)", "    elif i==4:\n        ret = np.array([0,1,1,0], dtype=np.float64) / np.sqrt(2)")])
+breaking('MC3-new-memo-gellmann', {'C16': 'MC3', 'C06': 'MC3'}, edit=[(M + 'gellmann.py', "def gellmann_matrix(i:int, j:int, d:int):", "@functools.lru_cache\ndef gellmann_matrix(i:int, j:int, d:int):")])
+breaking('MC3-new-memo-qec', {'C19': 'MC3', 'C04': 'MC3'}, edit=[(M + 'qec/_internal.py', "def make_asymmetric_error_set(num_qubit, distance, weight_z=1):", "@functools.lru_cache\ndef make_asymmetric_error_set(num_qubit, distance, weight_z=1):")])
+preserving('mc3-memo-of-int', ['C16'], [(M + 'gellmann.py', "def gellmann_matrix(i:int, j:int, d:int):", "@functools.lru_cache\ndef _gm_count(d):\n    return int(d*d)\n\n\ndef gellmann_matrix(i:int, j:int, d:int):")])
 # ---- textual breaking edits, one per rule family
 breaking('S3-ambient-draw', {'C10': 'S3'}, edit=[(M + 'random/_internal.py', "tmp0 = np_rng.normal(size=(N0,dim))\n    tmp0 = tmp0 / np.linalg.norm", "tmp0 = np.random.normal(size=(N0,dim))\n    tmp0 = tmp0 / np.linalg.norm")])
 breaking('S4-unseeded-receiver', {'C10': 'S4'}, edit=[(M + 'random/_internal.py', "    np_rng = get_numpy_rng(seed)\n    assert dim>=2\n    tmp0 = np.triu(", "    np_rng = get_numpy_rng(seed)\n    assert dim>=2\n    np_rng = np.random.default_rng(dim)\n    tmp0 = np.triu(")])
